@@ -110,7 +110,7 @@ class ElementTraits<std::index_sequence<I...>, Parameter...>
 
     static constexpr auto TRAILING_ALIGNMENTS = calculate_trailing_alignments();
 
-    template <template <class> class Predicate>
+    template <template <class> class Predicate, bool BreakAtPadding = false>
     static constexpr auto calculate_consecutive_indices() noexcept
     {
         std::array<std::size_t, sizeof...(Parameter)> consecutive_indices{((void)I, SKIP)...};
@@ -120,6 +120,11 @@ class ElementTraits<std::index_sequence<I...>, Parameter...>
             {
                 if constexpr (Predicate<typename detail::ParameterTraits<Parameter>::ValueType>::value)
                 {
+                    if constexpr (BreakAtPadding && detail::ParameterTraits<Parameter>::ALIGNMENT > 1)
+                    {
+                        // there may be alignment padding in front of this parameter: start a new run
+                        index = I;
+                    }
                     consecutive_indices[index] = I;
                 }
                 else
@@ -140,10 +145,10 @@ class ElementTraits<std::index_sequence<I...>, Parameter...>
         calculate_consecutive_indices<detail::IsTriviallySwappable>()};
 
     static constexpr auto CONSECUTIVE_EQUALITY_MEMCMPABLE_INDICES{
-        calculate_consecutive_indices<detail::EqualityMemcmpCompatible>()};
+        calculate_consecutive_indices<detail::EqualityMemcmpCompatible, true>()};
 
     static constexpr auto CONSECUTIVE_LEXICOGRAPHICAL_MEMCMPABLE_INDICES{
-        calculate_consecutive_indices<detail::LexicographicalMemcmpCompatible>()};
+        calculate_consecutive_indices<detail::LexicographicalMemcmpCompatible, true>()};
 
     template <std::size_t K>
     static constexpr std::size_t trailing_alignment() noexcept
@@ -213,6 +218,9 @@ class ElementTraits<std::index_sequence<I...>, Parameter...>
 
   public:
     using StorageElementType = detail::Aligned<STORAGE_ELEMENT_ALIGNMENT>;
+
+    // Without alignment requirements there is no padding between parameters or between elements.
+    static constexpr bool IS_PADDING_FREE = ((detail::ParameterTraits<Parameter>::ALIGNMENT == 1) && ...);
 
     template <class StorageType, class Allocator>
     static constexpr StorageType allocate_memory(std::size_t size_in_bytes, const Allocator& allocator)
